@@ -51,9 +51,14 @@ ASSUMPTIONS = [
     "sweep; the scale dependence of those windows is exercised by fixed cases and reported as a known finding",
     "ConvexPolyhedron.simplices: the triangulation of a non-triangular facet is Qhull's choice; only count and total "
     "area are subject to the law",
-    "an export that RAISES and leaves the shape moved (Polyhedron.to_hoomd on a polyhedron with a non-convex face) is "
-    "reported once under its own signature; the remaining queries of that case are then asked of a fresh copy",
+    "an export that RAISES and leaves the shape moved (as Polyhedron.to_hoomd did on a polyhedron with a non-convex "
+    "face before 27220f0) is reported once under its own signature; the remaining queries of that case are then asked "
+    "of a fresh copy",
     "the (N,2) layout of query points is compared only when g maps the plane z = 0 to itself",
+    "minimal_bounding_circle/sphere raising RuntimeError on one side only is an external-solver contract failure (counted) "
+    "when the same query on the same shape succeeds for another state of Python's global `random` (miniball draws its "
+    "pivots from it; on large cospherical vertex sets all ten verified attempts fail for ~2 % of the states, on x and on "
+    "g(x) alike); a failure that persists over six states is reported",
     "shapes reached through mutators agree with the directly built ones to 1e-12 * (size + offset) (checked by "
     "history.via_history, which otherwise falls back to the direct object): inside the 1e-9 tolerances used here",
 ]
@@ -984,6 +989,24 @@ def miniball_ok(env, name):
     return True
 
 
+def miniball_retries_random(case, name):
+    """the query raised RuntimeError on this shape: does it succeed on the same shape for another state of the global
+    `random` (then the failure is the external randomised solver's, not the shape's)?"""
+    import random
+    for k in range(6):
+        random.seed(1000 + k)
+        try:
+            with warnings.catch_warnings():
+                warnings.simplefilter("ignore")
+                getattr(build(case), name)
+            return True
+        except RuntimeError:
+            continue
+        except Exception:  # noqa: BLE001
+            return False
+    return False
+
+
 def compare(env):
     """all queries of g(x) against g(queries of x); returns list of (query, what, detail)"""
     out = []
@@ -997,6 +1020,16 @@ def compare(env):
             continue
         ctx.count("query:" + name)
         if a[0] == "err" or b[0] == "err":
+            if a[0] != b[0] and name in MINIBALL and "RuntimeError" in (a[1], b[1]) and \
+                    miniball_retries_random(env.case if a[0] == "err" else env.gcase, name):
+                # miniball (external, pivots drawn from Python's global `random`) failed the verification in all ten
+                # attempts for THIS state of `random` and succeeds for another one on the very same shape: nothing
+                # that depends on g (same rate on x and g(x); C13's subject).  Counted, not judged here.
+                ctx.contract_failures.append({"contract": "miniball finds the minimal ball within ten attempts",
+                                              "query": name, "cls": env.cls, "side": "x" if a[0] == "err" else "g",
+                                              "case": env.case.get("kind")})
+                ctx.count("contract:miniball-retries-exhausted")
+                continue
             if a[0] != b[0]:
                 if name in ("circumcircle", "incircle", "circumsphere", "insphere", "circumcircle_radius",
                             "incircle_radius", "circumsphere_radius", "insphere_radius") and borderline_ball(env, name):
@@ -1567,12 +1600,12 @@ def corpus(ctx):
         c = dict(base)
         c["window"] = True
         out.append((c, [ident("scaling", s=1e3)]))
-    # absolute np.isclose(z, 0) of Circle / Ellipse.is_inside (finding): size 1e-3 against size 1
+    # out-of-plane tolerance of Circle / Ellipse.is_inside (was absolute; repaired bab419e): size 1e-3 against size 1
     out.append(({"cls": "Circle", "radius": 1e-3, "center": [0.0, 0.0, 0.0], "plane": "xy", "window": "z"},
                 [ident("scaling", s=1e3)]))
     out.append(({"cls": "Ellipse", "a": 1e-3, "b": 2e-3, "center": [0.0, 0.0, 0.0], "plane": "xy", "window": "z"},
                 [ident("scaling", s=1e3)]))
-    # coplanarity tolerance relative to the plane's distance from the origin (finding): float32-rounded pentagon
+    # coplanarity tolerance (was relative to the plane's distance from the origin; repaired 744f807): float32 pentagon
     pv = planarity_polygon()
     for cls in ("Polygon", "ConvexPolygon"):
         vv = pv if cls == "Polygon" else pv[:4]
@@ -1631,8 +1664,9 @@ def eval_window_case(ctx, case, g):
 
 
 def eval_zwindow_case(ctx, case, g):
-    """Circle / Ellipse.is_inside: the out-of-plane switch np.isclose(z, 0) is absolute (1e-8).  A point 5e-6 radii
-    above the plane of a shape of size 1e-3 is 'inside'; the same configuration at size 1 is not."""
+    """Circle / Ellipse.is_inside: the out-of-plane switch was np.isclose(z, 0), absolute (1e-8): a point 2.5e-6 sizes
+    above the plane of a shape of size 1e-3 was 'inside', the same configuration at size 1 was not (repaired in bab419e:
+    atol = 1e-8 * size; this case reports the defect if it returns)."""
     cls = case["cls"]
     sx, gcase = build(case), transform_case(case, g)
     sg = build(gcase)
@@ -1643,15 +1677,15 @@ def eval_zwindow_case(ctx, case, g):
     ctx.count("zwindow:" + cls)
     if ix != ig:
         ctx.fail("%s.is_inside:isclose-z-window:scaling" % cls,
-                 "containment is not scale covariant: the out-of-plane test np.isclose(z, 0) is absolute (1e-8), so a "
-                 "point 2.5e-6 sizes off the plane is inside at size 1e-3 and outside at size 1",
+                 "containment is not scale covariant: a point 2.5e-6 sizes off the plane is inside at size 1e-3 and "
+                 "outside at size 1 (an absolute out-of-plane tolerance such as np.isclose(z, 0))",
                  {"case": case, "g": g_json(g), "point": p.tolist()}, [ix, ig])
 
 
 def planarity_polygon():
     """a pentagon in a tilted plane 0.4 away from the origin whose coordinates were rounded to float32 (out-of-plane
-    deviation ~3e-8 of its size): accepted where it is, since the coplanarity tolerance is 1e-8 + 1e-5*|d| with d the
-    distance of the PLANE FROM THE ORIGIN"""
+    deviation ~3e-8 of its size).  Before 744f807 the coplanarity tolerance was 1e-8 + 1e-5*|d| with d the distance of
+    the PLANE FROM THE ORIGIN: accepted where it is, rejected once its plane passes through the origin"""
     R = gen.random_rotation(np.random.default_rng(1))
     sq = np.array([[0, 0, 0], [1, 0, 0], [1, 1, 0], [0, 1, 0.0], [-0.3, 0.5, 0]]) - 0.4
     return (sq @ R.T).astype(np.float32).astype(float)
@@ -1671,9 +1705,8 @@ def eval_planarity_case(ctx, case, g):
         if "coplanar" in str(e):
             ctx.fail("%s.__init__:planarity-tolerance:%s" % (cls, g["kind"]),
                      "a polygon accepted by the constructor becomes 'Not all vertices are coplanar' under a %s: the "
-                     "coplanarity test np.isclose(n.v, d, planar_tolerance) has atol 1e-8 and a relative part "
-                     "proportional to d = distance of the plane from the origin, not to the polygon's size"
-                     % g["kind"], {"case": case, "g": g_json(g)}, str(e))
+                     "coplanarity test depends on where the polygon is (e.g. a tolerance proportional to the distance "
+                     "of the plane from the origin instead of the polygon's size)" % g["kind"], {"case": case, "g": g_json(g)}, str(e))
         else:
             ctx.fail("%s.__init__:covariance:%s" % (cls, g["kind"]), "constructor raised on g(x)", {"case": case, "g": g_json(g)}, str(e))
 
